@@ -114,6 +114,66 @@ pub fn refill<M: MArch, const N: usize>() {
     std::mem::forget(world);
 }
 
+/// Capacity independence of the non-growing step operations. Every other step harness fixes the
+/// capacity at N <= 5 and the text argues that no operation branches on how LARGE the capacity is.
+/// Here that is decided: the storage's capacity FIELD is an arbitrary value in N..=2^24 laid over a
+/// real allocation of N cells (all live positions, free-list links and probed positions below N,
+/// so nothing beyond the allocation is ever legitimately touched), and one destroy /
+/// create_within_capacity behaves exactly as at capacity N: same transition relation, capacity
+/// unchanged, every generation kept. (Growth reallocates with a symbolic size, which CBMC cannot
+/// do; its arithmetic is decided for all capacities by the E2 kernels `growth` / `admission`.)
+pub fn symcap_step<M: MArch, const N: usize>(op: u8) {
+    let m: Model<N> = Model::any_inv();
+    assume_no_overflow(&m);
+    let mut world = load::<M, N>(&m);
+    let cap = sym::any_usize();
+    sym::assume(cap >= N && cap <= MAX_CAP);
+    M::set_capacity(M::arch_mut(&mut world), cap);
+    assert!(M::arch(&world).capacity() == cap && M::arch(&world).len() == m.len);
+    match op {
+        0 => {
+            let k = sym::any_usize();
+            sym::assume(k < m.len);
+            let (k0, g0) = m.handle_raw(M::ID, k);
+            let any = EntityAny::from_raw((k0, g0)).ok().unwrap();
+            let dynamic = sym::any_bool();
+            if dynamic {
+                assert!(world.destroy(any).is_some(), "destroy of a live entity failed");
+            } else {
+                let h: Entity<M::Arch> = any.try_into().ok().unwrap();
+                let c = M::arch_mut(&mut world).destroy(h);
+                assert!(c.is_some(), "destroy of a live entity failed");
+                std::mem::forget(c);
+            }
+            assert!(M::arch(&world).capacity() == cap, "destroy changed the capacity (the capacity of an archetype never shrinks; every position keeps its generation)");
+            assert!(M::arch(&world).len() + 1 == m.len, "len after destroy");
+            M::set_capacity(M::arch_mut(&mut world), N);
+            let post: Model<N> = read::<M, N>(&mut world);
+            assert_destroyed::<M, N>(&m, &post, k);
+        }
+        _ => {
+            sym::assume(m.len < N);
+            let v = sym::any_u8();
+            let x = sym::any_u32();
+            let e = match M::arch_mut(&mut world).create_within_capacity(M::mk(v, x)) {
+                Ok(e) => e,
+                Err(c) => {
+                    std::mem::forget(c);
+                    panic!("create_within_capacity refused although len < capacity");
+                }
+            };
+            assert!(M::arch(&world).capacity() == cap, "create_within_capacity changed the capacity");
+            M::set_capacity(M::arch_mut(&mut world), N);
+            let post: Model<N> = read::<M, N>(&mut world);
+            assert_created::<M, N, N>(&m, &post, e.into_any().raw(), v, x);
+        }
+    }
+    cover!(cap > 1 << 20, "capacity field far above the allocation");
+    cover!(cap == N, "capacity field equal to the allocation");
+    cover!(op != 0 || m.len == 1, "the destroy empties the archetype");
+    std::mem::forget(world);
+}
+
 /// with_capacity(n) permits n creations without reallocation (public API only, no hooks).
 pub fn with_capacity_fill<const N: usize>() {
     use w1::*;
@@ -258,6 +318,10 @@ harness! { fn c12_with_capacity_fill_3() unwind(10) { with_capacity_fill::<3>() 
 harness! { fn c12_with_capacity_fill_1() unwind(6) { with_capacity_fill::<1>() } }
 harness! { fn c12_with_capacity_fill_2() unwind(8) { with_capacity_fill::<2>() } }
 harness! { fn c12_zero_capacity() unwind(4) { zero_capacity() } }
+harness! { fn c12_symcap_destroy_foo_3() unwind(5) { symcap_step::<w1::Foo, 3>(0) } }
+harness! { fn c12_symcap_destroy_foo_1() unwind(3) { symcap_step::<w1::Foo, 1>(0) } }
+harness! { fn c12_symcap_within_foo_3() unwind(5) { symcap_step::<w1::Foo, 3>(1) } }
+harness! { fn c12_symcap_destroy_tri_2() unwind(4) { symcap_step::<w3::Tri, 2>(0) } }
 harness! { fn c12_limit_within_capacity() unwind(3) { limit_within_capacity() } }
 harness! { fn c12_limit_create_panics() unwind(3) { limit_create_panics() } }
 harness! { fn c12_limit_with_capacity_panics() unwind(3) { limit_with_capacity_panics() } }
